@@ -160,6 +160,15 @@ def held_known_class(c, entry):
     return None
 
 
+def mup_t1_listing_wrong(listed):
+    """a listed MUP Type 1 route states the bit lengths of the addresses it shows"""
+    if not (isinstance(listed, list) and listed and listed[0] == 16): return None
+    w = lambda text: 128 if 58 in text else 32        # ':' in the address text
+    if listed[5] != w(listed[6]): return 'endpoint address %s listed with length %d' % (bytes(listed[6]).decode('latin1'), listed[5])
+    if listed[7] != (w(listed[8]) if listed[8] else 0): return 'source address %s listed with length %d' % (bytes(listed[8]).decode('latin1'), listed[7])
+    return None
+
+
 def oracle_held(c, obs):
     if obs == [-1]: return 'panic while decoding / listing a received NLRI'
     if obs[0] == 0: return None
@@ -168,6 +177,8 @@ def oracle_held(c, obs):
         if e[1] == [-1]: return 'a held NLRI panics its encoder: ' + text
         if e[2] == [-1]: return 'a held NLRI panics nlri_to_api: ' + text
         if e[3] == [-1]: return 'a held NLRI panics net_from_api when its listed form is given back: ' + text
+        why = mup_t1_listing_wrong(e[2])
+        if why: return 'held: a held MUP Type 1 route is not shown as it is: ' + why
         if e[3] != 0:
             cls = held_known_class(c, e)
             tag = 'held[%s]: ' % cls if cls else 'held: '
